@@ -59,8 +59,10 @@ def sha256_of_lines(path, lo, hi):
 
 def run_property(pid, tier="quick", seed=0, jobs=None, only=None):
     t0 = time.time()
+    import shutil
+    shutil.rmtree(os.path.join(ROOT, "replays", pid), ignore_errors=True)
     reg = load_contracts()
-    timeout_ms = 40000 if tier == "quick" else 180000
+    timeout_ms = 20000 if tier == "quick" else 120000
     tasks = []
     for key in reg.order:
         c = reg.contracts[key]
